@@ -54,10 +54,22 @@ impl GenerationCache {
         events: &[EventInfo],
         config: &GenerateConfig,
     ) -> Result<Self, CacheError> {
+        // dependency-graph.txt prints "name (file:line)": when it is requested, the line
+        // numbers are part of what gets written
+        let graph_positions = if config.should_visualize_deps() {
+            commands
+                .iter()
+                .map(|cmd| cmd.line_number.to_string())
+                .collect::<Vec<_>>()
+                .join(",")
+        } else {
+            String::new()
+        };
         let commands_hash = format!(
-            "{}{}",
+            "{}{}{}",
             Self::hash_commands(commands)?,
-            Self::hash_events(events)?
+            Self::hash_events(events)?,
+            Self::compute_hash(&graph_positions)
         );
         let structs_hash = Self::hash_structs(structs)?;
         let config_hash = Self::hash_config(config)?;
